@@ -456,6 +456,58 @@ def run_session6(case):
     return session.run_case(case, lambda: [coherent_monitor("session"), resample_law_monitor("session")], oracle=None, key_pred=lambda k: ":resample:" in k)
 
 
+def run_sforms(case):
+    """systematic_resample with the SAME (dyadic, exactly representable) weights and size presented as other legal containers / dtypes / layouts /
+    integer types, over the cell mid-points of the offset partition; plus the call-history oracle (a call repeated after other calls gives the
+    same indices, and an index vector returned earlier does not change)."""
+    from mc import forms as fm
+
+    res = Res()
+    n = case["n"]
+    kinds = ("list", "tuple", "strided", "revstrided", "readonly", "f32", "f16", "longdouble")
+    held = []
+    for comp in case["comps"]:
+        w = np.array(comp, dtype=float) / float(sum(comp))
+        m = len(w)
+        C = ref.cums(w)
+        last_pos = max(i for i in range(m) if w[i] > 0)
+        pts, cells, bps = _points(n, C, F(0))
+        mids = {mid for a, b, mid, wide in cells}
+        for mid in sorted(mids | {u for u, _ in pts}):
+            if mid in mids:
+                want = ref.exact_indices(n, C, F(mid), last_pos)
+                if -1 in want:
+                    continue
+            else:  # at and next to the breakpoints: dyadic weights are exact in every float type, so every spelling must agree with float64
+                try:
+                    want = np.asarray(_call_syst(n, w.copy(), mid)).tolist()
+                except Exception:
+                    continue
+            for kind, wv in [("f64", w.copy())] + list(fm.forms(w, kinds)):
+                for sname, nv in fm.scalar_forms(n) if kind in ("f64", "list") else [("int", n)]:
+                    cc = dict(case, comps=[list(comp)], only=[mid, kind, sname])
+                    if case.get("only") and case["only"] != [mid, kind, sname]:
+                        continue
+                    try:
+                        out = _call_syst(nv, wv, mid)
+                    except Exception as e:
+                        res.violate(f"forms:syst:{kind}/{sname}:raises:{type(e).__name__}", f"systematic_resample(size={sname}({n}), weights={comp}/{sum(comp)} as {kind}) raised {e!r} at u0={mid!r}", cc)
+                        continue
+                    res.evals += 1
+                    got = np.asarray(out).tolist()
+                    res.outcome(("sforms", n, tuple(comp), mid, kind, sname), nontrivial=kind != "f64" or sname != "int")
+                    if got != list(want):
+                        res.violate(f"forms:syst:{kind}/{sname}", f"systematic_resample(size={sname}({n}), weights={comp}/{sum(comp)} as {kind}) at u0={mid!r} returned {got}, expected {list(want)} (exact partition / the float64 spelling)", cc)
+                    held.append((out, np.array(out, copy=True), comp, mid, kind))
+                    if len(held) > 3:
+                        o, snap, c0, m0, k0 = held.pop(0)
+                        res.trans += 1
+                        if not np.array_equal(np.asarray(o), snap):
+                            res.violate("history:syst:earlier-result-changed", f"the index vector returned for weights {c0} ({k0}) at u0={m0!r} changed after later calls: {np.asarray(o).tolist()} vs {snap.tolist()} at return", cc)
+    res.states += 1
+    return res
+
+
 def run_duo6(case):
     """Two samplers alive in one process with DIFFERENT resampling schemes (and the same one), every interleaving of their iterations and queries:
     each must resample by its own scheme (index order / copy-count law of the systematic scheme, no zero-weight particle)."""
@@ -465,7 +517,7 @@ def run_duo6(case):
     return session.run_duo(case, lambda: [resample_law_monitor("pipe"), coherent_monitor("pipe")])
 
 
-KINDS = {"duo": run_duo6, "rsyst_full": run_rsyst_full, "session": run_session6, "syst": run_syst, "mult": run_mult, "rsyst": run_rsyst, "post": run_post}
+KINDS = {"sforms": run_sforms, "duo": run_duo6, "rsyst_full": run_rsyst_full, "session": run_session6, "syst": run_syst, "mult": run_mult, "rsyst": run_rsyst, "post": run_post}
 
 
 # ---------------------------------------------------------------------------------------------
@@ -555,6 +607,8 @@ def plan(ctx):
     # the same partition at the smallest temperatures an annealing iteration can have (bisection resolution 2^-14, below the schedule tolerance, subnormal) and at 1
     full += [{"kind": "rsyst_full", "n": 3, "ws": ws[i::12][:: (1 if th else 3)], "beta": b} for b in (2.0 ** -14, 1e-5, 9.9e-5, 5e-324, 1.0) for i in range(12)]
     ctx.explore("resampler-call-site-partition", full)
+    dy = [c for mm in (1, 2, 3, 4) for c in compositions(8, mm) if sum(c)]
+    ctx.explore("input-forms-and-call-history", [{"kind": "sforms", "n": nn, "comps": dy[i::8]} for nn in ((1, 2, 3, 5, 8) if th else (1, 3, 5)) for i in range(8)])
     from mc import session as _sess
     cfg = dict(n_particles=8, d=1, ess_ratio=1.0, n_total=10 ** 6, eval="scalar", clustering=False)
     ses = [{"kind": "session", "cfg": dict(cfg, resample=rs), "base": ctx.seed, "depth": 9, "patterns": [sh, 4]} for rs in ("mult", "syst") for sh in range(4)]
